@@ -117,6 +117,14 @@ def run(ctx):
         for i in range(n):
             if rng.random() < 0.06:
                 T[i] = rng.choice([999.9, 9999.0, -9999.0, -459.67, 151.0, -150.5, 1e6])
+        # exactly 0 degF on every day of one day type (a whole-degree feed in a cold snap), or on every day: zero is a temperature
+        zmode = rng.random()
+        if zmode < 0.12:
+            T[np.asarray(idx.dayofweek >= 5) & np.isfinite(T)] = 0.0
+        elif zmode < 0.2:
+            T[np.asarray(idx.dayofweek < 5) & np.isfinite(T)] = 0.0
+        elif zmode < 0.25:
+            T[np.isfinite(T)] = 0.0
         has_obs = rng.random() < 0.75
         df = pd.DataFrame({"temperature": T}, index=idx)
         if has_obs:
